@@ -306,10 +306,13 @@ def released_writes_submitted_in_order_atomically(ctx):
         ctx.ob(f, c, 'self._io_submit_lock' in held, 'request_writes must run under _io_submit_lock (two request threads would interleave their released runs)')
         st = q_stmt(c)
         var = st.targets[0].id if isinstance(st, ast.Assign) and isinstance(st.targets[0], ast.Name) else None
-        ctx.ob(f, f'result of request_writes bound to a local ({var})', var is not None, 'the released writes must be consumed')
-        if var is None:
+        direct = [n for n in own_nodes(f.node) if isinstance(n, (ast.For, ast.comprehension)) and n.iter is c]
+        ctx.ob(f, f'result of request_writes bound to a local ({var})' if not direct else 'result of request_writes iterated directly', var is not None or bool(direct),
+               'the released writes must be consumed')
+        if var is None and not direct:
             continue
-        uses = [n for n in own_nodes(f.node) if isinstance(n, (ast.For, ast.comprehension)) and norm(n.iter) == var]
+        uses = direct or [n for n in own_nodes(f.node) if isinstance(n, (ast.For, ast.comprehension)) and norm(n.iter) == var]
+        var = var or 'request_writes(...)'
         ctx.ob(f, f'for ... in {var} (in order)', len(uses) == 1, f'the released list must be iterated exactly once, in order (found {len(uses)} plain iterations)')
         for u in uses:
             tgt = norm(u.target)
